@@ -2,7 +2,7 @@
 from .. import core, defects, gen, treecheck
 
 
-def make(prop, oracle, scenario, n_quick, n_thorough, rule, corpus_defects=(), nontrivial=None, extra=None, snap=False):
+def make(prop, oracle, scenario, n_quick, n_thorough, rule, corpus_defects=(), nontrivial=None, extra=None, snap=False, corpus=()):
     def check(rep, tier, seed):
         sc = core.Scratch(prop + "c")
         try:
@@ -15,7 +15,7 @@ def make(prop, oracle, scenario, n_quick, n_thorough, rule, corpus_defects=(), n
                                 f"recorded defect scenario {fn.__name__} fails (again)")
         finally:
             sc.cleanup()
-        treecheck.run_scenarios(rep, tier, seed, prop, scenario, oracle, n_quick, n_thorough, nontrivial=nontrivial, snap=snap)
+        treecheck.run_scenarios(rep, tier, seed, prop, scenario, oracle, n_quick, n_thorough, nontrivial=nontrivial, snap=snap, corpus=corpus)
         if extra:
             extra(rep, tier, seed)
 
